@@ -160,6 +160,83 @@ def sizeClass (n : Nat) : String :=
 def someDecoded (m : List (Str × Enzyme)) : Bool :=
   m.any fun kv => !kv.2.commercialAvailability.isEmpty && kv.2.commercialAvailability.all (fun s => !s.isEmpty)
 
+/-! ### the property on a reply: every field as written; suppliers of the letters the table names -/
+
+structure GotE where
+  key : Str
+  e : Enzyme
+
+def readList : List String → Option (List Str × List String)
+  | "nil" :: r => some ([], r)
+  | n :: r => takeStrs (natOfStr n) r
+  | [] => none
+
+def readEntriesN : Nat → List String → Option (List GotE × List String)
+  | 0, r => some ([], r)
+  | n + 1, key :: name :: r =>
+    match readList r with
+    | some (isos, recog :: meth :: org :: src :: r1) =>
+      match readList r1 with
+      | some (sups, refs :: r2) =>
+        let enz : Enzyme :=
+          { name := name.toList, isoschizomers := isos, recognitionSequence := recog.toList,
+            methylationSite := meth.toList, microOrganism := org.toList, source := src.toList,
+            commercialAvailability := sups, references := refs.toList }
+        (readEntriesN n r2).map fun (es, r3) => (GotE.mk key.toList enz :: es, r3)
+      | _ => none
+    | _ => none
+  | _, _ => none
+
+/-- the report `ok count entries… read-flag json-flag export-text` -/
+def readReport : List String → Option (List GotE × String × String × String)
+  | "ok" :: n :: r =>
+    match readEntriesN (natOfStr n) r with
+    | some (es, [rd, js, text]) => some (es, rd, js, text)
+    | _ => none
+  | _ => none
+
+/-- per letter of `<7>`: the supplier the table names for it, or `none` when the table names none (the
+property does not constrain that slot; the code writes the empty name) -/
+def slotsOf (sups : List Supplier) (r : Rec) : List (Option Str) :=
+  r.codes.map fun c => if (sups.map (·.code)).contains c then some (supplierOf sups c) else none
+
+def expectedSlots (sups : List Supplier) (recs : List Rec) : List (Str × (Enzyme × List (Option Str))) :=
+  recs.foldl (fun m r => mapInsert m r.name (enzymeOf sups r, slotsOf sups r)) []
+
+/-- the names of the known letters appear, in order; an unknown letter may have left any one string or nothing -/
+def matchSlots : List (Option Str) → List Str → Bool
+  | [], [] => true
+  | [], _ :: _ => false
+  | some n :: s, g :: gs => g == n && matchSlots s gs
+  | some _ :: _, [] => false
+  | none :: s, gs => matchSlots s gs || (match gs with | _ :: gs' => matchSlots s gs' | [] => false)
+
+def entryOk (want : Str × (Enzyme × List (Option Str))) (g : GotE) : Bool :=
+  let e := want.2.1
+  g.key == want.1 && g.e.name == e.name && g.e.isoschizomers == e.isoschizomers
+  && g.e.recognitionSequence == e.recognitionSequence && g.e.methylationSite == e.methylationSite
+  && g.e.microOrganism == e.microOrganism && g.e.source == e.source && g.e.references == e.references
+  && matchSlots want.2.2 g.e.commercialAvailability
+
+def all2 {α β : Type} (p : α → β → Bool) : List α → List β → Bool
+  | [], [] => true
+  | a :: as, b :: bs => p a b && all2 p as bs
+  | _, _ => false
+
+/-- the property on a report: one entry per name with every field as written and the suppliers of the
+letters the table names; Read agrees; Go's own Unmarshal of the export agrees; the export's text is the
+JSON text of the entries reported -/
+def reportOk (sups : List Supplier) (recs : List Rec) (rep : List String) : Bool :=
+  match readReport rep with
+  | some (es, rd, js, text) =>
+    all2 entryOk (sortedEntries ({}, []) (expectedSlots sups recs)) es
+    && rd == "read-same" && js == "json-same"
+    && text == toStr (exportText (es.map fun g => (g.key, g.e)))
+  | none => false
+
+def hasUnknownLetter (sups : List Supplier) (recs : List Rec) : Bool :=
+  recs.any fun r => r.codes.any fun c => !(sups.map (·.code)).contains c
+
 def judge (c out : List String) : Verdict :=
   match c with
   | "listing" :: r =>
@@ -169,16 +246,18 @@ def judge (c out : List String) : Verdict :=
       let m := "ok" :: report (parse (listing sups recs ℓ))
       let inDom := wfListing sups recs ℓ
       -- spec: the entries are those the listing denotes (every field as written); Read and the JSON round trip agree
-      let want := report (.ok (expectedMap sups recs))
-      let j := out == "ok" :: want
+      let j := match out with | "ok" :: rep => reportOk sups recs rep | _ => false
+      -- a difference from the model that is confined to the slots of letters the table does not name is drift, not a DIFF
+      let same := out == m || (hasUnknownLetter sups recs && j)
       let indentCls := if ℓ.indent.isEmpty then "noindent" else if ℓ.indent.all (· == ' ') then "spaces"
                        else if ℓ.indent.all (· == '\t') then "tabs" else "mixed"
       let triv := recs.isEmpty
-      { corr := out == m, judge := if inDom then some j else outsideVerdict (out == m) out,
+      { corr := same, judge := if inDom then some j else outsideVerdict (out == m) out,
         cls := (if triv then "triv:" else "") ++ "listing/" ++ sizeClass recs.length ++ "/" ++ indentCls
                ++ (if recs.length > 256 then "/over256" else "")
                ++ (if recs.any (fun r => !r.codes.isEmpty) then "/decoded" else "")
-               ++ (if recs.any (·.isos.isEmpty) then "/empty2" else ""),
+               ++ (if recs.any (·.isos.isEmpty) then "/empty2" else "")
+               ++ (if hasUnknownLetter sups recs then (if out == m then "/unknown-letter" else "/unknown-letter-drift") else ""),
         detail := if out == m && (j || !inDom) then "" else lineOf ((m.take 40)) }
   | ["raw", text] =>
     let m := "ok" :: report (parse text.toList)
@@ -205,8 +284,7 @@ def judge (c out : List String) : Verdict :=
       match unlayout text.toList with
       | some (sups, recs, ℓ) =>
         let isListing := listing sups recs ℓ == text.toList && wfListing sups recs ℓ
-        let want := report (.ok (expectedMap sups recs))
-        let j := rest == want && someDecoded (expectedMap sups recs) && namesNodup recs
+        let j := reportOk sups recs rest && someDecoded (expectedMap sups recs) && namesNodup recs
         -- the sample must BE a listing (re-rendering gives the file back, `wfListing` holds): otherwise FAIL
         { corr := rest == m, judge := some (isListing && j),
           cls := if isListing then "file/" ++ sizeClass recs.length ++ "/spaces/decoded" else "file/not-a-listing",
